@@ -11,7 +11,7 @@ CONFIGS = {
     "thorough": [("core1", "Core1", 2, True), ("core2", "Core2", 2, True),
                  ("retry2", "Retry2", 2, True), ("retry1", "Retry1", 2, True),
                  ("ff2", "FF2", 2, True), ("noff2", "NoFF2", 2, True),
-                 ("mix2", "Mix2", 3, True), ("mix2ff", "Mix2FF", 3, True), ("mixu", "MixU", 3, True),
+                 ("mix2", "Mix2", 3, False), ("mix2ff", "Mix2FF", 3, True), ("mixu", "MixU", 3, True),
                  ("wide2", "Wide2", 3, True), ("wide3ff", "Wide3FF", 3, True)],
 }
 
